@@ -132,6 +132,10 @@ func runC03(r *Run) {
 	if r.Want("yields") {
 		c02Yields(r)
 	}
+	// a call abandoned with unread envelopes, then the next call: its outcome is its own handler's (c05b.go)
+	if r.Want("backlog") {
+		c05Backlog(r)
+	}
 }
 
 // c03ConnFailureIsNotSuccess: the connection dies in mid-stream (whatever error value the transport
